@@ -28,3 +28,22 @@ func harvest(dialect, stmt string) []string {
 	}, t)
 	return out
 }
+
+// hasIntervalString: the statement holds INTERVAL <string literal> <unit> (MySQL form with a string operand).
+func hasIntervalString(dialect, stmt string) bool {
+	c16.SetDialect(dialect)
+	t, err := sqlparser.New(sqlparser.ModeStrict).Parse(stmt)
+	if err != nil {
+		return false
+	}
+	found := false
+	_ = sqlparser.Walk(func(n sqlparser.SQLNode) (bool, error) {
+		if iv, ok := n.(*sqlparser.IntervalExpr); ok && iv.Unit != "" {
+			if v, ok := iv.Expr.(*sqlparser.SQLVal); ok && v.Type == sqlparser.StrVal {
+				found = true
+			}
+		}
+		return true, nil
+	}, t)
+	return found
+}
